@@ -91,7 +91,10 @@ def random_env_op(rng, n, images=("img:1", "img:2", "img:3"), allow_cmds=True, n
     if r < 0.62:
         return K.apply(K.node("n%d" % rng.randrange(n + 2), labels={"role": "w", "zone": "a"}))
     if r < 0.7 and n:
-        return edit("Node", "", "n%d" % rng.randrange(n), rng.choice(["taint:dedicated=gpu:NoExecute", "untaint"]))
+        # an untolerated taint, a standard one every daemon pod tolerates (cordon, node not ready), or none again
+        return edit("Node", "", "n%d" % rng.randrange(n), rng.choice(["taint:dedicated=gpu:NoExecute", "untaint",
+                                                                      "taint:node.kubernetes.io/unschedulable=:NoSchedule",
+                                                                      "taint:node.kubernetes.io/not-ready=:NoExecute"]))
     if r < 0.8:
         return kubelet(rng.choice(["all", "ready", "finalize"]), rng.choice([0, 2, 3]))
     if r < 0.9:
